@@ -364,6 +364,17 @@ fn gen_validity(rng: &mut Rng, tier: &str) -> Vec<(String, Value)> {
         cases.push(("malformed.http".into(), json!({"vrps": some_vrps, "route": ["10.1.0.0/16", 64496],
             "mode": if t.starts_with("/api") { "http_path" } else { "http_query" }, "target": t, "expect": "reject"})));
     }
+    for raw in ["10.0.0.0/8 -> AS64496", "10.0.0.1/8 => AS64496", "10.0.0.0/33 => AS64496", "10.0.0.0/8 => ASx", "10.0.0.0/8 =>",
+                "10.0.0.0/8", "10.0.0.0/8 => AS64496 junk", "10.0.0.0 => AS64496", "::/129 => 1", "10.0.0.0/8 => 4294967296",
+                "10.0.0.0/8 => AS64496\n10.0.0.0/8 AS64496"] {
+        cases.push(("malformed.plain_list".into(), json!({"vrps": some_vrps, "route": ["10.1.0.0/16", 64496], "mode": "list_plain", "raw": raw})));
+    }
+    for raw in ["", "{", "{}", "[]", r#"{"routes": [{"prefix": "10.0.0.0/8"}]}"#, r#"{"routes": [{"asn": "AS1"}]}"#,
+                r#"{"routes": [{"prefix": "10.0.0.1/8", "asn": "AS1"}]}"#, r#"{"routes": [{"prefix": "10.0.0.0/33", "asn": 1}]}"#,
+                r#"{"routes": [{"prefix": "10.0.0.0/8", "asn": "ASx"}]}"#, r#"{"routes": [{"prefix": "10.0.0.0/8", "asn": 4294967296}]}"#,
+                r#"{"routes": [{"prefix": 10, "asn": 1}]}"#, r#"{"routes": {"prefix": "10.0.0.0/8", "asn": 1}}"#] {
+        cases.push(("malformed.json_list".into(), json!({"vrps": some_vrps, "route": ["10.1.0.0/16", 64496], "mode": "list_json", "raw": raw})));
+    }
     // (d) large data sets
     let big = if tier == "thorough" { 6 } else { 2 };
     for i in 0..big {
@@ -481,6 +492,16 @@ fn run_validity(input: &Value) -> CaseOut {
     let snap = snapshot_of(&json!({"origins": input["vrps"]}));
     assert_eq!(snap.origins().count(), input["vrps"].as_array().unwrap().len(), "snapshot lost or invented VRPs");
     let prefix = Prefix::from_str(rstr).expect("route prefix");
+    // malformed request lists: the reader must return an error (checked here; the emitted case is then the
+    // typed-API answer for the given route, or the unknown state 94)
+    if let Some(raw) = input["raw"].as_str() {
+        let rejected = std::panic::catch_unwind(|| match mode {
+            "list_plain" => RequestList::from_plain_reader(raw.as_bytes()).is_err(),
+            _ => RequestList::from_json_reader(&mut raw.as_bytes()).is_err(),
+        }).unwrap_or(false);
+        let o = if rejected { obs_api(&RouteValidity::new(prefix, asn, &snap), &snap) } else { bad_obs(94) };
+        return emit(&snap, prefix, asn, o)
+    }
     let e = vec![];
     let before = input["before"].as_array().unwrap_or(&e);
     let after = input["after"].as_array().unwrap_or(&e);
